@@ -67,6 +67,11 @@ ASSUMPTIONS = [
     "of the module path (HistOkFrom) - CPython validates cached bytecode by that key",
     "the source is not modified while constructs are running (concurrent_constructs_converge; the theorem "
     "concurrent_constructs_need_stable_source_counterexample shows what happens otherwise - outside the property's quantifier)",
+    "the oracle judges 'generated from this template file' by file identity (os.path.realpath of the recorded and "
+    "the given name) while code and theorem (rewrite_iff_due) compare os.path.normpath of the names: no spelling the "
+    "generator produces distinguishes the two (absolute name; 'src/t.html' <-> './src//t.html'; lookup over a "
+    "relative directory) - symlinked names and relative-vs-absolute spellings of one file at ONE module path are out "
+    "of scope",
     "durability across power loss (fsync) is not claimed by the property",
 ]
 TRUSTED_EXTRA = ["C15: the proxies in harness/props/C15.py that record / fail mako's file-system calls (incl. the raw "
